@@ -231,10 +231,12 @@ Mutate ==
           /\ graph' = [graph EXCEPT ![k] = ReplaceIn(@, i, v)] /\ mut' = "rewire" /\ UNCHANGED <<gouts, root>>
      \/ \E k \in 1..Len(graph), a \in {0, 1, 2} :
           /\ a # graph[k].a /\ graph' = [graph EXCEPT ![k].a = a] /\ mut' = "attr" /\ UNCHANGED <<gouts, root>>
-     \/ \E k \in 1..(Len(graph) - 1) :                            \* an extra consumer of an intermediate value
-          /\ graph' = Append(graph, GN("U", <<OutV(k, 0)>>, 0)) /\ mut' = "consumer" /\ UNCHANGED <<gouts, root>>
-     \/ \E k \in 1..(Len(graph) - 1) :                            \* an intermediate value is a graph output
-          /\ gouts' = {OutV(k, 0)} /\ mut' = "graphout" /\ UNCHANGED <<graph, root>>
+     \/ \E k \in 1..Len(graph), j \in 0..1 :                     \* an extra consumer of a matched node's output
+          /\ j < NOuts(graph[k].op) /\ (k < Len(graph) \/ j = 1)   \* (not of the pattern output itself)
+          /\ graph' = Append(graph, GN("U", <<OutV(k, j)>>, 0)) /\ mut' = "consumer" /\ UNCHANGED <<gouts, root>>
+     \/ \E k \in 1..Len(graph), j \in 0..1 :                     \* another output of a matched node is a graph output
+          /\ j < NOuts(graph[k].op) /\ (k < Len(graph) \/ j = 1)
+          /\ gouts' = {OutV(k, j)} /\ mut' = "graphout" /\ UNCHANGED <<graph, root>>
      \/ \E k \in 1..Len(graph) :
           /\ Len(graph[k].ins) = 2 /\ graph[k].ins[1] # graph[k].ins[2]
           /\ graph' = [graph EXCEPT ![k].ins = <<@[2], @[1]>>] /\ mut' = "swap" /\ UNCHANGED <<gouts, root>>
